@@ -52,6 +52,28 @@ type c06Cfg struct {
 	Explicit1 bool   `json:"explicit1"` // a count of 1 is written explicitly
 	Variant   int    `json:"variant"`   // realisation of the sequence identifiers as nucleotide strings
 	Big       int    `json:"big"`       // > 0: every sequence is about Big kilobases long
+	NAValue   string `json:"na"`        // the --na-value / OptionNAValue of the run ("" = NA): a renaming of the abstract NA
+}
+
+func (c *c06Cfg) na() string {
+	if c.NAValue == "" {
+		return c06NA
+	}
+	return c.NAValue
+}
+
+// real spelling of an abstract attribute value / back
+func (c *c06Cfg) spell(v string) string {
+	if v == c06NA {
+		return c.na()
+	}
+	return v
+}
+func (c *c06Cfg) unspell(v string) string {
+	if v == c.na() {
+		return c06NA
+	}
+	return v
 }
 
 type c06Case struct {
@@ -200,22 +222,28 @@ func recAttributes(i int, r urec, keys []string, cfg *c06Cfg, forJSON bool) map[
 		a["count"] = r.Count
 	}
 	for j, v := range r.Cat {
-		if v != c06Missing {
-			a[catName(j)] = v
+		if v == "3" {
+			a[catName(j)] = 3 // a numeric attribute value: classes are made on its text
+		} else if v != c06Missing {
+			a[catName(j)] = cfg.spell(v)
 		}
 	}
 	a["rank"] = i // an attribute that differs between the records of a class
 	a["origin"] = "verif"
 	switch r.Mt {
 	case "val":
-		a["k"] = r.Mv
+		if r.Mv == "7" {
+			a["k"] = 7 // a numeric attribute value: counted under its text
+		} else {
+			a["k"] = cfg.spell(r.Mv)
+		}
 	case "map":
 		switch {
 		case forJSON || cfg.MapType == 1:
 			m := map[string]int{}
 			for j, w := range r.Mm {
 				if w > 0 {
-					m[keys[j]] = w
+					m[cfg.spell(keys[j])] = w
 				}
 			}
 			a["merged_k"] = m
@@ -223,7 +251,7 @@ func recAttributes(i int, r urec, keys []string, cfg *c06Cfg, forJSON bool) map[
 			m := obiseq.StatsOnValues{}
 			for j, w := range r.Mm {
 				if w > 0 {
-					m[keys[j]] = w
+					m[cfg.spell(keys[j])] = w
 				}
 			}
 			a["merged_k"] = m
@@ -231,7 +259,7 @@ func recAttributes(i int, r urec, keys []string, cfg *c06Cfg, forJSON bool) map[
 			m := map[string]interface{}{}
 			for j, w := range r.Mm {
 				if w > 0 {
-					m[keys[j]] = float64(w)
+					m[cfg.spell(keys[j])] = float64(w)
 				}
 			}
 			a["merged_k"] = m
@@ -250,10 +278,11 @@ type decoder struct {
 	rev  map[string]string // nucleotide string -> abstract identifier
 	keys []string
 	kidx map[string]int
+	cfg  *c06Cfg
 }
 
 func newDecoder(recs []urec, keys []string, cfg *c06Cfg) *decoder {
-	d := &decoder{rev: map[string]string{}, keys: keys, kidx: map[string]int{}}
+	d := &decoder{rev: map[string]string{}, keys: keys, kidx: map[string]int{}, cfg: cfg}
 	for _, r := range recs {
 		d.rev[seqString(r.Seq, cfg.Variant, cfg.Big)] = r.Seq
 	}
@@ -291,7 +320,7 @@ func (d *decoder) abstract(o orec, ncat int, merge bool) (tuple []any, bad strin
 	cats := make([]string, ncat)
 	for i := 0; i < ncat; i++ {
 		if v, ok := o.attrs[catName(i)]; ok {
-			cats[i] = fmt.Sprint(v)
+			cats[i] = d.cfg.unspell(fmt.Sprint(v))
 		} else {
 			cats[i] = c06NA
 		}
@@ -311,7 +340,7 @@ func (d *decoder) abstract(o orec, ncat int, merge bool) (tuple []any, bad strin
 			bad = "no merged_k"
 		} else {
 			set := func(k string, w int, isInt bool) {
-				j, known := d.kidx[k]
+				j, known := d.kidx[d.cfg.unspell(k)]
 				if !known || !isInt || w <= 0 {
 					bad = fmt.Sprintf("merged_k entry %q:%v", k, w)
 					return
@@ -350,7 +379,7 @@ func (d *decoder) abstractDem(o orec, ncat int) (tuple []any, bad string) {
 	if _, still := o.attrs["merged_k"]; still {
 		bad = "merged_k still present"
 	}
-	return []any{t[0], t[1], t[2], fmt.Sprint(v)}, bad
+	return []any{t[0], t[1], t[2], d.cfg.unspell(fmt.Sprint(v))}, bad
 }
 
 // --------------------------------------------------------------------------------- library level
@@ -403,7 +432,7 @@ func runLib(recs []urec, opt []int, keys []string, cfg *c06Cfg) libResult {
 		it.Done()
 	}()
 	options := []obichunk.WithOption{obichunk.OptionBatchCount(cfg.Chunks), obichunk.OptionsParallelWorkers(cfg.Workers),
-		obichunk.OptionNAValue(c06NA)}
+		obichunk.OptionNAValue(cfg.na())}
 	if cfg.Mode == "disk" {
 		options = append(options, obichunk.OptionSortOnDisk())
 	} else {
@@ -586,6 +615,9 @@ func uniqArgs(opt []int, cfg *c06Cfg, withNs bool, file string) []string {
 	if cfg.Mode == "mem" {
 		a = append(a, "--in-memory")
 	}
+	if cfg.NAValue != "" {
+		a = append(a, "--na-value", cfg.NAValue)
+	}
 	if opt[1] == 1 {
 		a = append(a, "-m", "k")
 	}
@@ -685,6 +717,9 @@ func configsFor(c *c06Case, level string, runs int, seed int64) []*c06Cfg {
 			cfg.Mode = c06OnlyMode
 		}
 		cfg.Batch = []int{0, 1, 2}[(x/2)%3]
+		if (x/5)%4 == 3 && level != "demerge" {
+			cfg.NAValue = "none"
+		}
 		if level != "lib" {
 			cfg.Batch = []int{0, 1, 2, 10}[(x/2)%4]
 			if cfg.Mode == "disk" && x%8 == 1 && n > 0 {
@@ -993,7 +1028,7 @@ func replayC06Child(env *Env) {
 
 // ------------------------------------------------------------------------------------ record (T)
 
-var c06TraceKeys = []string{"NA", "v0", "v1", "v2", "v3", "v4", "v5"}
+var c06TraceKeys = []string{"7", "NA", "v0", "v1", "v2", "v3", "v4", "v5"} // byte order
 
 type c06Event struct {
 	Op      string   `json:"op"`
@@ -1018,7 +1053,7 @@ type c06Event struct {
 
 func randomDataset(rng *rand.Rand, n int) []urec {
 	nseq := 3 + rng.Intn(60)
-	catvals := []string{"p", "q", "r", c06NA, c06Missing, c06Missing}
+	catvals := []string{"p", "q q", c06NA, c06Missing, "\u00e9t\u00e9", "3", c06Missing}
 	ncv := 2 + rng.Intn(len(catvals)-1)
 	bigCounts := rng.Intn(2) == 0
 	recs := make([]urec, 0, n)
@@ -1091,7 +1126,7 @@ func recordC06(env *Env) {
 		}
 		cfg := &c06Cfg{Level: "lib", Perm: nil, Mode: []string{"mem", "disk"}[rng.Intn(2)], Workers: []int{1, 2, 4, 8}[rng.Intn(4)],
 			Chunks: []int{1, 2, 3, 7, 100}[rng.Intn(5)], Batch: []int{1, 3, 10, 100, 0}[rng.Intn(5)], MapType: rng.Intn(3),
-			Explicit1: rng.Intn(2) == 0, Variant: rng.Intn(50)}
+			Explicit1: rng.Intn(2) == 0, Variant: rng.Intn(50), NAValue: []string{"", "", "none"}[rng.Intn(3)]}
 		dec := newDecoder(recs, c06TraceKeys, cfg)
 		ev := c06Event{Op: "uniq", Level: "lib", Mode: cfg.Mode, Workers: cfg.Workers, Chunks: cfg.Chunks, Batch: cfg.Batch, Ncat: opt[0],
 			Merge: opt[1], Ns: opt[2], Keys: c06TraceKeys, Recs: encodeRecs(recs), Out: [][]any{}, Ref: [][]any{}, Seed: jobs[i].seed}
